@@ -78,7 +78,7 @@ Record ent := { ekind : kind; elimit : Z; eunf : list Z }.
 Record hst := { ents : string -> string -> option ent; infl : list Z (* ids in flight *) }.
 Definition hst0 : hst := {| ents := fun _ _ => None; infl := [] |}.
 
-Definition limit_of (s : schema) : Z := match s with SMif m => m | _ => 0 end.
+Definition limit_of (s : schema) : Z := match s with SMif m _ => m | _ => 0 end.
 
 Definition zmem (x : Z) (l : list Z) : bool := existsb (Z.eqb x) l.
 Fixpoint zremove (x : Z) (l : list Z) : list Z :=
